@@ -23,15 +23,15 @@ ORIGINS = ["a", "b", "c"]
 class KeepAliveHarness:
     horizon = 400
 
-    def __init__(self, variant, proto, max_connections, max_keepalive, expiry, depth=4, origins=3):
+    def __init__(self, variant, proto=None, max_connections=None, max_keepalive=None, expiry=None, depth=4, origins=3, ct=None):
         self.variant = variant
-        self.proto = proto            # "h1" | "h2"
+        self.ct = ct or ("h11" if proto == "h1" else "h2pk")
+        self.proto = scen.CONN_TYPES[self.ct]["proto"]            # "h1" | "h2"
         self.mc = max_connections
         self.mk = max_keepalive
         self.expiry = expiry
         self.depth = depth
         self.origins = ORIGINS[:origins]
-        self.ct = "h11" if proto == "h1" else "h2pk"
 
     # ------------------------------------------------------------------ shared step logic
     def _snapshot(self, pool, w, meta):
@@ -90,7 +90,7 @@ class KeepAliveHarness:
         sig = {"harness": "keepalive", "proto": self.proto}
 
         def viol(kind, msg):
-            ex.violations.append(Violation("C09." + kind, f"{msg} | op={op} config=(max_connections={self.mc}, max_keepalive={self.mk}, expiry={self.expiry}) proto={self.proto} "
+            ex.violations.append(Violation("C09." + kind, f"{msg} | op={op} config=(max_connections={self.mc}, max_keepalive={self.mk}, expiry={self.expiry}) ct={self.ct} proto={self.proto} "
                                            f"variant={self.variant} t={w.env.time} pre={pre} post={post}", dict(sig, kind=kind)))
         new_ops = w.net.ledger[before_ops:]
         connects = [o for o in new_ops if o.kind.startswith("connect")]
@@ -165,10 +165,12 @@ class KeepAliveHarness:
         def fp():
             return w._fp()
 
-        def note_transports():
+        def note_transports(origin):
+            # origin of a transport = origin of the operation during which it was opened (for proxied types the
+            # transport's own host is the proxy's)
             for t in w.net.transports:
                 if t.id not in meta:
-                    meta[t.id] = {"origin": t.host.split(".")[0], "idle_since": None, "server_closed": False, "clean_finish": False}
+                    meta[t.id] = {"origin": origin, "idle_since": None, "server_closed": False, "clean_finish": False}
 
         # the program, written once with a tiny sync/async adapter
         async def arun(coro):
@@ -193,7 +195,7 @@ class KeepAliveHarness:
                 counter += 1
                 if op[0] == "request":
                     res = yield ("request", scen.url_for(self.ct, host=f"{op[1]}.example", token=tok))
-                    note_transports()
+                    note_transports(op[1])
                     used = {x.tr.id for x in w.net.ledger[before:] if x.kind == "write"}
                     for t in used:
                         meta[t]["idle_since"] = w.env.time
@@ -203,7 +205,7 @@ class KeepAliveHarness:
                                                        {"harness": "keepalive", "kind": "request-failed", "proto": self.proto}))
                 elif op[0] == "open":
                     res = yield ("open", scen.url_for(self.ct, host=f"{op[1]}.example", token=tok))
-                    note_transports()
+                    note_transports(op[1])
                     used = {x.tr.id for x in w.net.ledger[before:] if x.kind == "write"}
                     if res[0] == "ok":
                         held.append({"cm": res[1], "tid": sorted(used)[0] if used else None, "tok": tok})
@@ -305,6 +307,8 @@ class KeepAliveHarness:
         return ex
 
 
+PROXIED = ["h11tls", "h2alpn", "h2exp11", "fwd", "tunnel", "tunnel-h2", "tunnel-s", "socks", "socks-auth-tls", "socks-h2"]
+CONFIGS_OTHER_TYPES = [(2, 1, 5.0), (1, None, 5.0), (3, 2, 0)]
 CONFIGS_QUICK = [(1, None, None), (2, 1, None), (2, 0, 5.0), (3, 1, 5.0), (3, 2, 0), (None, 1, 5.0), (2, None, 5.0), (None, None, 0)]
 
 
@@ -321,6 +325,15 @@ def specs(tier):
                 if tier == "quick" and variant == "async" and (a, b, c) not in CONFIGS_QUICK[:5]:
                     continue
                 out.append(make_spec(MOD, "KeepAliveHarness", variant=variant, proto=proto, max_connections=a, max_keepalive=b, expiry=c, depth=depth))
+    # the other ten connection types (TLS, negotiated protocol, forward / tunnel / SOCKS proxies): their connection classes have
+    # their own idle / expired / available predicates, delegating to the wrapped connection
+    for ct in PROXIED:
+        for i, (a, b, c) in enumerate(CONFIGS_OTHER_TYPES if tier == "quick" else confs):
+            for variant in ("sync", "async"):
+                if tier == "quick" and i > 0 and variant == "async":
+                    continue
+                out.append(make_spec(MOD, "KeepAliveHarness", variant=variant, ct=ct, max_connections=a, max_keepalive=b, expiry=c,
+                                     depth=3 if tier == "quick" else 4, origins=2))
     return out
 
 
@@ -334,7 +347,7 @@ def check(tier="quick", seed=0, workers=None, only=None):
     viols = common.collect(st, ("C09",))
     cov = evidence.stats_coverage(
         st,
-        rule=("per pool configuration x protocol x variant: BFS over all operation sequences up to the depth (request/open per origin A,B,C; close of any held response; "
+        rule=("per pool configuration x protocol x variant (plain HTTP/1.1 and prior-knowledge HTTP/2 in full depth, the ten TLS / negotiated / proxied connection types with two origins at depth-1): BFS over all operation sequences up to the depth (request/open per origin A,B,C; close of any held response; "
               "tick to just below / exactly at / just above the next keep-alive deadline; server-side close of an idle HTTP/1.1 connection), states merged on the canonical pool+network+clock state "
               "so that deeper states are reached by chaining; every transition judged by R1-R4 from observed pre/post states; non-trivial = sequence with at least two operation kinds"),
         extra={"scenarios": len(sp)})
